@@ -916,3 +916,4 @@ def oversize(chk, repo):
 
 # added rules (appended to the explanation the evidence file carries)
 EXPLANATION += (" " + "Added during the build (DESIGN.md 4.31, second table): append_fmmu on a grid of accumulators, map_fmmu's register image decoded by the ESC layout, the flag merge of SyncGroupBase.__init__ for every device order, allocate-before-append_fmmu on the CFG - all by abstract execution or CFG, replacing statement patterns.")
+EXPLANATION += (' Added after wave 9: (R18.5) Device.get_terminals for all orders of five variables on two terminals.')
